@@ -101,16 +101,23 @@ def applyChange (trimCR : Bool) (s : Txt) (r : Range) (text : Txt) : Txt :=
 /-- `isFullChange`. -/
 def isFullChange (r : Range) : Bool := r.sl == 0 && r.sc == 0 && r.el == 0 && r.ec == 0
 
-/-- A content change as the server sees it after decoding
-    (`protocol.TextDocumentContentChangeEvent`: `Range` is a non-pointer struct). -/
+/-- A content change as `Server.didChange` sees it (`server.ContentChange`): the range is
+    absent for a full replacement.  `cmd/hledger-lsp/main.go` decodes the notification into
+    this shape itself (`didChangeHandler` → `DidChangeRaw`). -/
 structure Change where
-  range : Range
+  range : Option Range
   text : Txt
 deriving Repr, DecidableEq, Inhabited
 
-/-- The loop body of `DidChange`. -/
+/-- `Server.DidChange` (typed protocol params, range by value): the zero range stands for
+    "no range" (`isFullChange`).  This is the API the pinned code exposed on the wire too. -/
+def ofProtocol (r : Range) (t : Txt) : Change := ⟨if isFullChange r then none else some r, t⟩
+
+/-- The loop body of `Server.didChange`. -/
 def applyOne (trimCR : Bool) (s : Txt) (c : Change) : Txt :=
-  if isFullChange c.range then c.text else applyChange trimCR s c.range c.text
+  match c.range with
+  | none => c.text
+  | some r => applyChange trimCR s r c.text
 
 def applyAll (trimCR : Bool) (s : Txt) (cs : List Change) : Txt :=
   cs.foldl (applyOne trimCR) s
